@@ -205,6 +205,24 @@ func c12Run(j c12Job) *jobReport {
 	}
 	// some data to serve, then the clock moves on without the rotation loop running
 	w.setNow(100)
+	// devices whose capacity is at the edge of its type: 2^64-1, the smallest capacity whose 1.35-fold needs 65 bits,
+	// and 0; each reports once
+	for i, capa := range []uint64{1<<64 - 1, 13664254869414482679, 13664254869414482678, 0} {
+		id := uint32(20 + i)
+		k := key(fmt.Sprintf("c12/cap%d", i))
+		if code, _ := w.doAuthorize(w.signAuth(authFor(id, k, capa), w.GCA.Priv)); code != 200 {
+			rep.fail("edge-capacity-authorization-refused", map[string]interface{}{"capacity": capa, "status": code})
+			continue
+		}
+		dg := signedReport(id, 100, 500, k.Priv)
+		if p := safely(func() { w.S.VerifInjectDatagram(dg) }); p != "" {
+			rep.fail("panic/report-of-edge-capacity-device", map[string]interface{}{"capacity": capa, "panic": firstLine(p)})
+			poisoned = true
+			return rep
+		}
+		w.M.datagram(dg, 100)
+		rep.Evals++
+	}
 	w.S.VerifInjectDatagram(signedReport(1, 100, 500, w.A.Priv))
 	w.M.datagram(signedReport(1, 100, 500, w.A.Priv), 100)
 	for i := 0; i < j.Rotations; i++ {
